@@ -93,11 +93,32 @@ CheckVec(c, o) ==
               IF NumVectors(c, f) = 0 THEN got # {} ELSE got # {NumVectors(c, f)} } }
         \cup { <<"vec-unprobed", f>> : f \in VecFieldsOf(c) \ { q.f : q \in RangeOf(o.vec) } })
 
+\* random Next/Advance sequences: each call returns the least non-excluded hit at or after its target,
+\* with the details its flag class asks for, then nil (PostIter's law on the content's postings)
+CheckIter(c, o) ==
+  { <<"iter", q.f, q.t, q.ex, q.cls>> : q \in { q \in RangeOf(o.iter) :
+      LET ex   == RangeOf(q.ex)
+          hits == SelectSeq(PostingsOf(c, q.f, q.t), LAMBDA h : h.d \notin ex)
+          cut(h) == IF q.cls = 2 THEN h
+                    ELSE IF q.cls = 1 THEN [h EXCEPT !.locs = <<>>]
+                    ELSE [d |-> h.d, fr |-> 0, nm |-> 0, locs |-> <<>>]
+          \* index of the first hit with document number >= t, or 0
+          firstAt(t) == LET S == { i \in 1..Len(hits) : hits[i].d >= t } IN IF S = {} THEN 0 ELSE MinOf(S)
+          RECURSIVE Ok(_, _)
+          Ok(i, last) ==
+            IF i > Len(q.calls) THEN TRUE
+            ELSE LET cl == q.calls[i]
+                     tgt == IF cl.op = "next" THEN last + 1 ELSE cl.t
+                     k == firstAt(tgt)
+                 IN  IF k = 0 THEN cl.nil /\ i = Len(q.calls)
+                     ELSE ~cl.nil /\ cl.hit = cut(hits[k]) /\ Ok(i + 1, hits[k].d)
+      IN  q.n # Len(hits) \/ ~Ok(1, -1) } }
+
 CheckErrs(o) == { <<"err", e.asp, e.msg>> : e \in RangeOf(o.errs) }
 
 CheckObs(c, o) ==
   CheckMeta(c, o) \cup CheckDicts(c, o) \cup CheckStored(c, o) \cup CheckDocNums(c, o)
-  \cup CheckDv(c, o) \cup CheckThes(c, o) \cup CheckVec(c, o) \cup CheckErrs(o)
+  \cup CheckDv(c, o) \cup CheckThes(c, o) \cup CheckVec(c, o) \cup CheckIter(c, o) \cup CheckErrs(o)
 
 ----------------------------------------------------------------------------
 (* trace actions *)
